@@ -40,7 +40,7 @@ def d1(chk, prog):
     W.exp2_subst[v.key()] = mix
     got = tb.guard(lambda: it.run(fi.qn, [v, r_, x_, p]), "0<purity<1")
     tb.cell(got is not None and same(got, n_), dict(branch="0 < purity < 1", got=repr(got), want="n"))
-    for pv, label in ((OrderVal("purity1", 1, [0, 1]), "purity == 1"), (None, "purity None")):
+    for pv, label in ((1, "purity == 1"), (Fr(1), "purity == 1.0"), (None, "purity None")):
         got = tb.guard(lambda: it.run(fi.qn, [v, r_, x_, pv]), label)
         tb.cell(got is not None and same(got, t_mul(r_, mix)), dict(branch=label, got=repr(got), want="r*2^v"))
     W.exp2_subst.clear()
@@ -189,7 +189,7 @@ def d4(chk, prog, ploidies):
         cl = ["auto", "x", "y"]
         rows = [{"chromosome": chrom(c, style), "start": Term.sym("s"), "end": Term.sym("e"), "gene": "g", "log2": Term.sym(f"v_{c}")} for c in cl]
         g = make_ga("CopyNumArray", rows, {"_classes": cl, "sample_id": "S"})
-        pv = None if pur is None else OrderVal("purity1", 1, [0, 1])
+        pv = pur
         out = tb3.guard(lambda: it.run(fi.qn, [g, None, "clonal", P, pv, hap, False, None, None]), f"P={P}")
         if out is None:
             continue
@@ -222,3 +222,22 @@ def run(chk):
     d3(chk, prog)
     d4(chk, prog, [2, 3] if chk.tier == "quick" else [1, 2, 3, 4, 5, 6])
     d5(chk, prog)
+
+
+_C = "cnvlib/call.py"
+MUTANTS = [
+    dict(name="swap female/male expect branch", file=_C, old="        ploidy if is_sample_female else ploidy // 2\n", new="        ploidy // 2 if is_sample_female else ploidy\n"),
+    dict(name="Y reference ploidy instead of ploidy//2", file=_C, old='df.loc[cnarr.chr_y_filter(diploid_parx_genome), "reference"] = ploidy // 2', new='df.loc[cnarr.chr_y_filter(diploid_parx_genome), "reference"] = ploidy'),
+    dict(name="flip sign in purity formula", file=_C, old="(ref_copies * 2**log2_ratio - expect_copies * (1 - purity)) / purity", new="(ref_copies * 2**log2_ratio + expect_copies * (1 - purity)) / purity"),
+    dict(name="drop (1 - purity)", file=_C, old="expect_copies * (1 - purity)) / purity", new="expect_copies * purity) / purity"),
+    dict(name="delete .round()", file=_C, old='outarr["cn"] = absolutes.round().astype("int")', new='outarr["cn"] = absolutes.astype("int")'),
+    dict(name="drop the non-negativity floor", file=_C, old="        absolutes = np.maximum(absolutes, 0)\n", new=""),
+    dict(name="drop += 1.0 on Y in log2_ratios", file=_C, old="    ratios[(cnarr.chr_y_filter(diploid_parx_genome)).values] += 1.0\n", new=""),
+    dict(name="pary_filter reads PAR1X", file="cnvlib/cnary.py", old='params.PSEUDO_AUTSOMAL_REGIONS[genome_build]["PAR1Y"]', new='params.PSEUDO_AUTSOMAL_REGIONS[genome_build]["PAR1X"]'),
+    dict(name="swap flag arguments at absolute_clonal call", file=_C, old="outarr, ploidy, purity, is_haploid_x_reference, diploid_parx_genome, is_sample_female\n", new="outarr, ploidy, purity, is_sample_female, diploid_parx_genome, is_haploid_x_reference\n"),
+    dict(name="pure helper haploid test inverted", file=_C, old='(is_haploid_x_reference and chrom in ["chrx", "x"])', new='(not is_haploid_x_reference and chrom in ["chrx", "x"])'),
+    dict(name="PAR-Y reference not zeroed", file=_C, old='        df.loc[cnarr.pary_filter(diploid_parx_genome), "reference"] = 0\n', new=""),
+    dict(name="purity==1 treated as impure (<=)", file=_C, old="    if purity and purity < 1.0:\n        ncopies", new="    if purity and purity <= 1.0:\n        ncopies", expect="silent"),
+    dict(name="twin: formula rewritten", file=_C, old="ncopies = (ref_copies * 2**log2_ratio - expect_copies * (1 - purity)) / purity", new="ncopies = ref_copies * 2**log2_ratio / purity - expect_copies / purity + expect_copies", expect="silent"),
+    dict(name="twin: rename local df", file=_C, old="    df = cnarr.copy().data\n\n    # Set all", new="    df = cnarr.copy().data\n    _unused = 0\n\n    # Set all", expect="silent"),
+]
